@@ -143,7 +143,10 @@ def run(ctx):
                     except Exception as e:
                         failed = ["raised %s: %s" % (type(e).__name__, str(e)[:100])]
                     if failed:
-                        ctx.violation("eig/symeig/%s/%s" % (method, "+".join(f.split(":")[0] for f in failed)),
+                        sp_ = np.sort(SPECTRA[spname](n))
+                        mult_ = max(int(np.sum(np.isclose(sp_, v))) for v in sp_)
+                        dep = method == "davidson" and any("cholesky" in f for f in failed) and mult_ > len(idx)
+                        ctx.violation("eig/davidson/dependent-expansion-vectors/multiplicity>neig" if dep else "eig/symeig/%s/%s" % (method, "+".join(f.split(":")[0] for f in failed)),
                                       "symeig(n=%d, neig=%s, mode=%s, method=%s, M=%s, %s operator, batch %s, %s, %s spectrum): %s; specification: pairs %s of the ascending spectrum"
                                       % (n, k if kGiven else None, mode, method, withM, opkind, batch, dtype, spname, failed, idx), {"n": n, "k": k, "mode": mode, "method": method})
             else:
@@ -217,13 +220,36 @@ def run(ctx):
                                 ev.append({"a": "raise", "exc": "%s: %s" % (type(e).__name__, str(e)[:100])})
                             traces.append({"tid": tid, "cfg": {"na": na, "neig": neig, "mode": mode, "M": withM, "spectrum": spname}, "ev": ev})
                             ctx.case(key=("davidson", na, neig, mode, withM, spname))
+    # fixed reproducer of the recorded finding (independent of VERIF_SEED): orientation seed 0 of the sweep in DESIGN.md 11.3
+    with warnings.catch_warnings():
+        warnings.simplefilter("ignore")
+        g0 = torch.Generator().manual_seed(0)
+        Am0 = herm(9, SPECTRA["degenerate"](9), (), DT, g0)
+        tid += 1
+        ev0 = []
+        try:
+            with torch.no_grad():
+                e0, v0 = xitorch.linalg.symeig(HermOp(Am0), neig=2, mode="uppest", method="davidson")
+            ev0 = [{"a": "ret-unobserved", "verdicts": verdicts_symeig(e0, v0, Am0, None, [8, 9], 1e-5)}]
+        except Exception as e:
+            ev0 = [{"a": "raise", "exc": "%s: %s" % (type(e).__name__, str(e)[:100])}]
+        if ev0[0]["a"] == "raise":
+            traces.append({"tid": tid, "cfg": {"na": 9, "neig": 2, "mode": "uppest", "M": False, "spectrum": "degenerate", "fixed": True}, "ev": ev0})
+        ctx.case(key=("davidson-fixed-reproducer",))
     rej = ctx.validate_traces("Trace_Davidson.tla", "Trace_Davidson.cfg", traces, shards=8)
     bytid = {t_["tid"]: t_ for t_ in traces}
     for tid_, matched, total in rej:
         t_ = bytid[tid_]
         ev = t_["ev"][matched] if matched < len(t_["ev"]) else None
         failed = [a for a, ok in ev["verdicts"] if not ok] if ev and ev["a"] == "ret" else []
-        ctx.violation("eig/davidson/%s" % ("+".join(failed) if failed else (ev["a"] if ev else "incomplete")),
+        cfg_ = t_["cfg"]
+        sp_ = np.sort(SPECTRA[cfg_["spectrum"]](cfg_["na"]))
+        mult_ = max(int(np.sum(np.isclose(sp_, v))) for v in sp_)
+        if ev and ev["a"] == "raise" and "cholesky" in ev["exc"] and mult_ > cfg_["neig"]:
+            kk = "eig/davidson/dependent-expansion-vectors/multiplicity>neig"
+        else:
+            kk = "eig/davidson/%s" % ("+".join(failed) if failed else (ev["a"] if ev else "incomplete"))
+        ctx.violation(kk,
                       "davidson %s not explained by the Davidson model at event %d/%d: %s (applications so far: %s)"
                       % (json.dumps(t_["cfg"]), matched + 1, total, json.dumps(ev)[:300], [e.get("ncols") for e in t_["ev"][:matched]]), {"cfg": t_["cfg"]})
     ctx.samples.append(traces[3])
